@@ -365,6 +365,19 @@ func c19Effects(run *ev.Run) (int, error) {
 			effs = append(effs, eff{nm, src, !detached && !star, fmt.Sprintf("custom-function context comment form=%s detached=%v", form.name, detached)})
 		}
 	}
+	// a context comment on one custom function must not act as a setting for the function that follows it in the file
+	{
+		n++
+		nm := fmt.Sprintf("X%03d", n)
+		effs = append(effs, eff{nm, "// goverter:converter\n// goverter:extend LeakB\ntype " + nm + " interface {\n\t// goverter:context ctxa\n\tConvert(source In, ctxa string) Out2\n}\n\n" +
+			"// goverter:context ctxv\nfunc LeakA(s int64, ctxv string) string { return ctxv }\n\nfunc LeakB(s int, ctxv string) string { return ctxv }\n", false,
+			"context comment of the preceding function must not apply to the next function"})
+		n++
+		nm = fmt.Sprintf("X%03d", n)
+		effs = append(effs, eff{nm, "// goverter:converter\n// goverter:extend LeakD\ntype " + nm + " interface {\n\t// goverter:context ctxa\n\tConvert(source In, ctxa string) Out2\n}\n\n" +
+			"func LeakC(s int64, ctxv string) string { return ctxv }\n\n// goverter:context ctxv\nfunc LeakD(s int, ctxv string) string { return ctxv }\n\nfunc LeakE(s int32, ctxv string) string { return ctxv }\n", true,
+			"control: the function carrying the context comment itself"})
+	}
 	var b strings.Builder
 	b.WriteString("package eff\n\n" + types + "\n")
 	for _, e := range effs {
